@@ -418,6 +418,37 @@ _FALLBACK_MODULE_API = {
 }
 
 
+def private_helper_resolver(program):
+    """Resolver for cfg.CFG: `self._name(...)` -> method of the owner's class (or a base class in the repository),
+    `_name(...)` -> function of the owner's module.  Only names starting with one underscore (the repository's private stages)."""
+    import ast as _ast
+
+    by_qual = {}
+    for mod in program.modules.values():
+        for f in getattr(mod, "functions", {}).values():
+            by_qual[f.qualname] = f
+        for c in getattr(mod, "classes", {}).values():
+            for f in c.methods.values():
+                by_qual[f.qualname] = f
+
+    def resolve(call, owner):
+        fi = by_qual.get(owner)
+        if fi is None:
+            return None
+        fn = call.func
+        if isinstance(fn, _ast.Attribute) and isinstance(fn.value, _ast.Name) and fn.value.id == "self" and fn.attr.startswith("_") and not fn.attr.startswith("__") and fi.cls is not None:
+            m = fi.cls.find_method(fn.attr)
+            if m is not None and getattr(m, "node", None) is not None and not m.decorators:
+                return m.node, m.qualname
+        if isinstance(fn, _ast.Name) and fn.id.startswith("_") and not fn.id.startswith("__"):
+            m = getattr(fi.module, "functions", {}).get(fn.id)
+            if m is not None and getattr(m, "node", None) is not None and not m.decorators:
+                return m.node, m.qualname
+        return None
+
+    return resolve
+
+
 def module_api_table():
     """Return (set of method names of torch.nn.Module, source description)."""
     cands = []
